@@ -21,7 +21,7 @@ Space (one value per dimension; index 0 = default):
   method   GET POST PUT HEAD DELETE OPTIONS
   path     /a / /a/ /%C3%A9 /%E2%82 /%FF /a%2Fb /a+b // /a/b /a%20b /A /a% /a%zz /a/b/ /a// ///  (routes /, /a, /a/{x}, /{x} + sink)
   query    '' a=1 a=1&a=2 a=1,2 a= %zz a=%C3%A9 a=%FF = a=1&b=true a=+x a a=1&&b a=%26 a=,  b=0&a=x
-  headers  16 header sets (repeated / mixed-case names, Accept, Range, If-*-Match, dates, Forwarded,
+  headers  20 header sets (repeated / mixed-case names, Accept, Range, If-*-Match, dates, Forwarded,
            X-Forwarded-*, Cookie with duplicate names, auth/referer/expect, explicit Host, malformed
            values, latin-1 value)
   body     none | b'' | JSON | 3 bytes | urlencoded form | truncated JSON
@@ -137,6 +137,7 @@ def header_sets(nm):
         [('Authorization', 'Basic Zm9vOmJhcg=='), ('Referer', 'http://ex.org/caf\xe9'), ('Expect', '100-continue'),
          ('X-Int', '42')],
         [('Host', 'other.example:8081')],
+        [('Host', 'bare.example')],      # no port in the header: the scheme's default, whatever port the server listens on
         [('Range', 'bytes=x'), ('If-Modified-Since', 'garbage'), ('If-Match', 'nonsense'), ('Date', 'x'), ('X-Int', 'x')],
         [('Range', 'items=1-2, 5-6'), ('Forwarded', 'garbage;;'), ('Accept', 'nonsense')],
         # the connecting peer's own address in the MIDDLE of the forwarding chain (last-hop test vs membership)
